@@ -53,7 +53,7 @@ Qed.
 (* ---------- every view handed out is the input's storage from its offset ---------- *)
 Lemma parse_ok_len c s f : parse c s = Ok f -> (14 <= len s)%nat.
 Proof.
-  unfold parse, ether_is_valid. destruct (Nat.leb_spec 14 (len s)); [auto|]. cbn [bind]. discriminate.
+  rewrite parse_chain_eq. unfold parse_chain, ether_is_valid. destruct (Nat.leb_spec 14 (len s)); [auto|]. cbn [bind]. discriminate.
 Qed.
 
 Definition sub_view (s : slice) (off : nat) (r : res (option slice)) : Prop :=
@@ -114,7 +114,7 @@ Ltac blind :=
 Lemma parse_proto_keeps fx s f proto :
   post (fun f' => f_host f' = f_host f /\ a_mac (f_src f') = a_mac (f_src f)) (parse_proto fx s f proto).
 Proof.
-  unfold parse_proto. blind; cbn [post]; cbn; auto.
+  rewrite parse_proto_chain_eq. unfold parse_proto_chain. blind; cbn [post]; cbn; auto.
 Qed.
 
 Lemma post_bind {A B} (P : B -> Prop) (r : res A) (k : A -> res B) :
@@ -126,7 +126,7 @@ Proof. intros H. destruct r; cbn [post]; auto. Qed.
 
 Theorem parse_host_rule c s : post (host_rule c) (parse c s).
 Proof.
-  unfold parse.
+  rewrite parse_chain_eq. unfold parse_chain.
   apply post_bind; intros _ _. apply post_bind; intros smac _. apply post_bind; intros dmac _.
   apply post_bind; intros hl _.
   destruct (Nat.ltb (len s) hl); [exact I|].
